@@ -82,6 +82,8 @@ type c15key struct {
 	how    string // human-readable provenance
 	// caller-owned buffers handed to NewExtendedKey (key, chainCode, parentFP)
 	callerBufs map[string][]byte
+	noChild    bool // depth 255: no derivation observation
+	childErr   string
 }
 
 func c15withVersion(x *ref.XKey, v [4]byte) *ref.XKey {
@@ -106,9 +108,17 @@ func (e *c15key) setChild(ch *ref.XKey) {
 
 // deriveChild computes the model of the derivation observation.
 func (e *c15key) deriveChild() {
+	if e.ref.Depth == 255 {
+		// a key at depth 255 has no children (the refusal is C04's clause);
+		// its derivation behaviour is not observed
+		e.setChild(nil)
+		e.noChild = true
+		return
+	}
 	ch, err := e.ref.Child(e.obsIdx)
 	if err != nil {
 		e.setChild(nil)
+		e.childErr = err.Error()
 		return
 	}
 	e.setChild(ch)
@@ -275,8 +285,8 @@ func (h *c15hist) observe(op string, x, y *c15key) {
 		} else if cs != y.cwant {
 			bad = append(bad, fmt.Sprintf("Child(%d).String()=%q want %q", y.obsIdx, cs, y.cwant))
 		}
-	} else {
-		c.Inconclusive("reference-invalid-child")
+	} else if !y.noChild {
+		c.Inconclusive("reference-invalid-child: " + y.childErr)
 	}
 	if len(bad) > 0 {
 		h.broken = true
@@ -554,6 +564,7 @@ func (h *c15hist) opParse(src *c15key) {
 	if src != nil {
 		e.obsIdx = src.obsIdx // share the (immutable) reference derivation
 		e.setChild(src.child)
+		e.noChild, e.childErr = src.noChild, src.childErr
 	} else {
 		e.deriveChild()
 	}
@@ -587,7 +598,7 @@ func c15twinRef(r *vf.Rand, src *ref.XKey) (*ref.XKey, string) {
 		copy(t.ChainCode[:], r.Bytes(32))
 		return &t, "same key, other chain code"
 	}
-	t.Depth = byte(r.Range(0, 254))
+	t.Depth = byte(r.Range(0, 255))
 	t.ChildNum = r.Uint32()
 	copy(t.ParentFP[:], r.Bytes(4))
 	return &t, "same key and chain code, other depth / child number / parent fingerprint"
@@ -668,6 +679,10 @@ func (h *c15hist) opNewExtendedKey(src *c15key) {
 
 func (h *c15hist) opChild(x *c15key) {
 	c, r := h.c, h.r
+	if x.ref.Depth == 255 {
+		c.Inc("op_Child_skipped_at_depth_255")
+		return
+	}
 	hardened := x.ref.IsPrivate() && r.Bool()
 	i := c15index(r, hardened)
 	want, rerr := x.ref.Child(i)
@@ -731,6 +746,7 @@ func (h *c15hist) opNeuter(x *c15key) {
 		e := &c15key{k: k, origin: "Neuter", from: x, how: fmt.Sprintf("Neuter of public key#%d", x.n), obsIdx: x.obsIdx}
 		e.setRef(c15withVersion(x.ref, x.ref.Version))
 		e.setChild(x.child)
+		e.noChild, e.childErr = x.noChild, x.childErr
 		h.add(e)
 		h.note("-> key#%d", e.n)
 		h.observeNew("Neuter", e)
